@@ -87,7 +87,9 @@ def execute(ctx, scn, events, tids, next_tid, data=None):
     core.through_link(inp, scn.get("seed", 0) % 5 == 3)
     inp = core.through_dotdot(inp, scn.get("seed", 0) % 7 == 5)
     dotted = scn.get("seed", 0) % 3 == 1   # output names with more than one dot
-    st, pf = d / ("storage.v2.hex" if dotted else "storage.hex"), d / ("part.rel.1.hex" if dotted else "part.hex")
+    od = d / core.odd_name(scn.get("seed", 0) // 3)   # the directory of the output files is the caller's choice as well
+    od.mkdir(exist_ok=True)
+    st, pf = od / ("storage.v2.hex" if dotted else "storage.hex"), od / ("part.rel.1.hex" if dotted else "part.hex")
     err = None
     if scn.get("stale"):
         # history: an earlier invocation (other content, other addresses) wrote the same two output files
